@@ -746,3 +746,4 @@ MANIFEST = {
     "ref": "DESIGN.md §4 C10",
 }
 MANIFEST["text"] += " System rule forms: `new` and `new : old` with new = 5 * old**e * other**f (e in {1,2,3,-1,-2}, f in {0,1,-1,2}) from lines, file and warm disk cache, Fraction and float: base-unit answers use only the system's base units and preserve the physical value."
+MANIFEST["text"] += ' Dimension-line orders: all 24 orders of four chained derived-dimension lines at 3 positions among the unit lines, from lines and file, float and Fraction.'
